@@ -38,6 +38,7 @@ type WorldJSON struct {
 		PostLogout []string `json:"postLogout"`
 		LoginGlob  []string `json:"loginGlob"` // names of URIs matched by the client's login redirect glob (only)
 		PLGlob     []string `json:"plGlob"`    // names of URIs matched by the client's post-logout redirect glob (only)
+		Skew       int      `json:"skew"`      // client clock skew, seconds
 		AT         string   `json:"at"`
 		Assert     bool     `json:"assert"`
 	} `json:"clients"`
@@ -118,6 +119,7 @@ func BuildRegs(w *WorldJSON) []*modelstore.ClientReg {
 		if c.Auth == "basic" || c.Auth == "post" {
 			r.Secret = Secret(id)
 		}
+		r.Skew = time.Duration(c.Skew) * time.Second
 		for _, u := range c.URIs {
 			r.URIs = append(r.URIs, ConcreteURI[u])
 		}
@@ -217,6 +219,11 @@ func BuildProvider(store *modelstore.Store, cfg Cfg, extra ...op.Option) (http.H
 	}
 	st := modelstore.WithCaps(store, cfg.CC, cfg.TE, cfg.Dev)
 	opts := append([]op.Option{op.WithLogger(quiet)}, extra...)
+	if alg := string(store.Signing.Alg); alg != "" && alg != "RS256" && alg != "ES256" && alg != "PS256" {
+		// an operator who signs with an algorithm outside the verifiers' default list configures the provider's own verifiers for it
+		opts = append(opts, op.WithAccessTokenVerifierOpts(op.WithSupportedAccessTokenSigningAlgorithms(alg)),
+			op.WithIDTokenHintVerifierOpts(op.WithSupportedIDTokenHintSigningAlgorithms(alg)))
+	}
 	issuer := op.StaticIssuer(Issuer)
 	if cfg.Dyn {
 		issuer = op.IssuerFromHost("")
